@@ -11,8 +11,10 @@ Trace == ndJsonDeserialize(IOEnv.TRACE_FILE)
 
 VARIABLES l, cfg, em, maxTs, dl, dead, used,
           ldt,    \* IDLETIMEOUT scenarios: wall-clock time (µs) at which the last row KNOWN to have reached the window was handed in
-          idled   \* an idle-justified delivery was seen: the engine's watermark now runs on processing time
-vars == <<l, cfg, em, maxTs, dl, dead, used, ldt, idled>>
+          idled,  \* an idle-justified delivery was seen: the engine's watermark now runs on processing time
+          mts,    \* trace positions of manual flushes (TriggerWindow): what is open is delivered at once, the key's next event starts afresh
+          flush   \* a manual flush is being delivered (no row handed in since)
+vars == <<l, cfg, em, maxTs, dl, dead, used, ldt, idled, mts, flush>>
 Idle == IF "idle" \in DOMAIN cfg THEN cfg.idle ELSE 0
 IdleJustified(r) == Idle > 0 /\ ldt >= 0 /\ "t" \in DOMAIN r /\ r.t - ldt >= Idle
 
@@ -40,8 +42,8 @@ RowCode(r) ==
   ELSE IF r.c # Len(r.ids) THEN <<"count_mismatch", "">>
   ELSE IF r.s # SumV(r.ids) THEN <<"sum_mismatch", "">>
   ELSE IF idled THEN <<"", "">>        \* after an idle flush the watermark is the wall clock: the trace no longer knows which events are late
-  ELSE IF maxTs < r.we + cfg.moo /\ ~IdleJustified(r) THEN <<"delivered_before_watermark_passed_end", "">>
-  ELSE IF maxTs < r.we + cfg.moo THEN <<"", "">>       \* idle flush: the session is cut where the source fell idle
+  ELSE IF maxTs < r.we + cfg.moo /\ ~IdleJustified(r) /\ ~flush THEN <<"delivered_before_watermark_passed_end", "">>
+  ELSE IF maxTs < r.we + cfg.moo /\ ~flush THEN <<"", "">>       \* idle flush: the session is cut where the source fell idle
   ELSE IF \E id \in SeqSet(r.ids) : em[id].fut = 1 THEN <<"future_garbage_counted", "">>
   ELSE IF \E id \in SeqSet(r.ids) : em[id].g # r.g THEN <<"row_in_wrong_key", "">>     \* on time or late: only the key's own events
   \* an event that was late on arrival is reported, if at all, inside the interval of the session that reports it
@@ -85,24 +87,28 @@ QuiesceCode ==
   ELSE IF \E id \in 1..Len(em) : ~em[id].late /\ em[id].fut = 0 /\ Due(id) /\ ~WasDelivered(id) THEN "accepted_event_never_reported"
   ELSE IF \E a, b \in 1..Len(em) : /\ a # b /\ em[a].g = em[b].g /\ ~em[a].late /\ ~em[b].late /\ em[a].fut = 0 /\ em[b].fut = 0
                                    /\ Ts(a) <= Ts(b) /\ Ts(b) - Ts(a) < T
+                                   /\ ~(\E m \in mts : (em[a].at < m /\ m < em[b].at) \/ (em[b].at < m /\ m < em[a].at))      \* not cut apart by a manual flush
                                    /\ WasDelivered(a) /\ WasDelivered(b) /\ DelIdx(a) # DelIdx(b) THEN "events_closer_than_timeout_split"
   ELSE ""
 
 Reject(code) == /\ PrintT(<<"REJECT", cfg.tr, l, code>>) /\ dead' = TRUE
 NoteDev(ds)  == \A d \in ds : PrintT(<<"DEV", cfg.tr, l, d>>)
 
-Init == /\ l = 1 /\ cfg = [tr |-> -1] /\ em = <<>> /\ maxTs = -1 /\ dl = <<>> /\ dead = FALSE /\ used = {} /\ ldt = -1 /\ idled = FALSE
+Init == /\ l = 1 /\ cfg = [tr |-> -1] /\ em = <<>> /\ maxTs = -1 /\ dl = <<>> /\ dead = FALSE /\ used = {} /\ ldt = -1 /\ idled = FALSE /\ mts = {} /\ flush = FALSE
 
 Next ==
   /\ l <= Len(Trace)
   /\ l' = l + 1
   /\ LET e == Trace[l] IN
      IF e.e = "reset" THEN
-        /\ cfg' = e /\ em' = <<>> /\ maxTs' = -1 /\ dl' = <<>> /\ dead' = FALSE /\ used' = {} /\ ldt' = -1 /\ idled' = FALSE
-     ELSE IF dead THEN UNCHANGED <<cfg, em, maxTs, dl, dead, used, ldt, idled>>
+        /\ cfg' = e /\ em' = <<>> /\ maxTs' = -1 /\ dl' = <<>> /\ dead' = FALSE /\ used' = {} /\ ldt' = -1 /\ idled' = FALSE /\ mts' = {} /\ flush' = FALSE
+     ELSE IF dead THEN UNCHANGED <<cfg, em, maxTs, dl, dead, used, ldt, idled, mts, flush>>
+     ELSE IF e.e = "mtrig" THEN
+        /\ mts' = mts \cup {l} /\ flush' = TRUE
+        /\ UNCHANGED <<cfg, em, maxTs, dl, dead, used, ldt, idled>>
      ELSE IF e.e = "added" THEN
         /\ ldt' = IF e.id >= 1 /\ e.id <= Len(em) THEN em[e.id].t ELSE ldt
-        /\ UNCHANGED <<cfg, em, maxTs, dl, dead, used, idled>>
+        /\ UNCHANGED <<cfg, em, maxTs, dl, dead, used, idled, mts, flush>>
      ELSE IF e.e = "add" THEN
         LET fut  == IF "fut" \in DOMAIN e THEN e.fut ELSE 0
             m1   == IF fut = 1 THEN maxTs ELSE IF e.ts > maxTs THEN e.ts ELSE maxTs
@@ -110,20 +116,21 @@ Next ==
         IN /\ em' = Append(em, [ts |-> e.ts, g |-> e.g, v |-> e.v, late |-> late, at |-> l, fut |-> fut, t |-> IF "t" \in DOMAIN e THEN e.t ELSE 0])
            /\ maxTs' = m1
            /\ IF e.id # Len(em) + 1 THEN Reject("harness_ids_not_sequential") ELSE UNCHANGED dead
-           /\ UNCHANGED <<cfg, dl, used, ldt, idled>>
+           /\ flush' = FALSE
+           /\ UNCHANGED <<cfg, dl, used, ldt, idled, mts>>
      ELSE IF e.e = "deliver" THEN
         LET c == DeliverCode(e) IN
         IF c[1] = "" THEN
             /\ dl' = dl \o [i \in 1..Len(e.rows) |-> [ws |-> e.rows[i].ws, we |-> e.rows[i].we, g |-> e.rows[i].g, ids |-> e.rows[i].ids, at |-> l]]
             /\ NoteDev(c[2]) /\ used' = used \cup c[2]
-            /\ idled' = (idled \/ \E i \in 1..Len(e.rows) : maxTs < e.rows[i].we + cfg.moo)
-            /\ UNCHANGED <<cfg, em, maxTs, dead, ldt>>
-        ELSE Reject(c[1]) /\ UNCHANGED <<cfg, em, maxTs, dl, used, ldt, idled>>
+            /\ idled' = (idled \/ (~flush /\ \E i \in 1..Len(e.rows) : maxTs < e.rows[i].we + cfg.moo))
+            /\ UNCHANGED <<cfg, em, maxTs, dead, ldt, mts, flush>>
+        ELSE Reject(c[1]) /\ UNCHANGED <<cfg, em, maxTs, dl, used, ldt, idled, mts, flush>>
      ELSE IF e.e = "quiesce" THEN
         LET code == QuiesceCode IN
         /\ IF code = "" THEN UNCHANGED dead ELSE Reject(code)
-        /\ UNCHANGED <<cfg, em, maxTs, dl, used, ldt, idled>>
-     ELSE UNCHANGED <<cfg, em, maxTs, dl, dead, used, ldt, idled>>
+        /\ UNCHANGED <<cfg, em, maxTs, dl, used, ldt, idled, mts, flush>>
+     ELSE UNCHANGED <<cfg, em, maxTs, dl, dead, used, ldt, idled, mts, flush>>
 
 Spec == Init /\ [][Next]_vars
 AllConsumed == TLCGet("stats").diameter - 1 = Len(Trace)
